@@ -162,7 +162,7 @@ def site_inventory(ctx):
 def run(ctx):
     quick = ctx.tier == "quick"
     site_inventory(ctx)
-    pool = []
+    pool = stories.probe_pool(ctx, "c03")
     for prof, n in (("lists_ties", 30 if quick else 600), ("lists_random", 25 if quick else 500),
                     ("lists", 15 if quick else 300), ("random", 20 if quick else 400), ("flows", 10 if quick else 200),
                     ("observers", 8 if quick else 150), ("core", 10 if quick else 200), ("externals", 5 if quick else 100)):
